@@ -35,6 +35,7 @@ type C15Case struct {
 	C20    *C20Case  `json:"c20,omitempty"`
 	Storm  *C18Storm `json:"c18storm,omitempty"`
 	Send   *C15Send  `json:"sendstorm,omitempty"`
+	Burst  *C16Burst `json:"c16burst,omitempty"`
 }
 
 // C15Send: streams that keep sending while the connection's write side and read side fail in the same instant.
@@ -116,7 +117,7 @@ func execC15Send(t *testing.T, c C15Send) (v Verdict) {
 	return
 }
 
-var c15Families = []string{"c01", "c02", "c02", "c03", "c04", "c07", "c09", "c10", "c11", "c16", "c16rpc", "c17", "c18", "c18rpc", "c18storm", "c20", "sendstorm"}
+var c15Families = []string{"c01", "c02", "c02", "c03", "c04", "c07", "c09", "c10", "c11", "c16", "c16rpc", "c17", "c18", "c18rpc", "c18storm", "c20", "sendstorm", "c16burst"}
 
 func genC15(t *rapid.T) C15Case {
 	c := C15Case{Family: rapid.SampledFrom(c15Families).Draw(t, "family"), Yield: rapid.SliceOfN(rapid.Byte(), 1, 16).Draw(t, "yield")}
@@ -180,6 +181,9 @@ func genC15(t *rapid.T) C15Case {
 	case "c18storm":
 		x := genC18Storm(t)
 		c.Storm = &x
+	case "c16burst":
+		x := genC16Burst(t) // more than the proxy's per-destination buffer outstanding: the overflow path runs
+		c.Burst = &x
 	case "sendstorm":
 		c.Send = &C15Send{Streams: rapid.IntRange(1, 8).Draw(t, "streams"), Unary: rapid.IntRange(0, 4).Draw(t, "unary"), Ser: rapid.Bool().Draw(t, "ser")}
 	}
@@ -227,6 +231,8 @@ func execC15(t *testing.T, c C15Case) (v Verdict) {
 		inner = execC18(t, *c.C18)
 	case "c18storm":
 		inner = execC18Storm(t, *c.Storm)
+	case "c16burst":
+		inner = execC15Burst(t, *c.Burst)
 	case "sendstorm":
 		inner = execC15Send(t, *c.Send)
 	case "c20":
@@ -254,3 +260,63 @@ func itoa(i int) string {
 }
 
 func TestC15(t *testing.T) { checkProp(t, "C15", "race", genC15, execC15) }
+
+// execC15Burst: one source floods a destination whose transport is slow (every write to it parks and is released a
+// little later by a concurrent goroutine), so that the proxy's overflow path and its write loop run at the same time.
+// Only the race detector judges.
+func execC15Burst(t *testing.T, c C16Burst) (v Verdict) {
+	res := kit.Bubble(t, func() {
+		bg := context.Background()
+		w := newPxWorld(c.Ser, nil)
+		src, dst := w.attach("c0"), w.attach("c1")
+		kit.Settle()
+		dst.B.Hold(func(*kit.Rpc) bool { return true })
+		var wg sync.WaitGroup
+		stop := make(chan struct{})
+		wg.Add(2)
+		go func() {
+			defer wg.Done()
+			for i := 0; i < 3*c.N; i++ {
+				_ = src.A.Write(bg, pxEnv("c0", "c1", 7000+i))
+				if i%8 == 7 {
+					runtime.Gosched()
+				}
+			}
+		}()
+		go func() {
+			defer wg.Done()
+			for k := 0; k < 4000; k++ {
+				select {
+				case <-stop:
+					return
+				default:
+				}
+				for _, h := range dst.Held() {
+					h.Release()
+				}
+				dst.A.ReadAvailable()
+				runtime.Gosched()
+			}
+		}()
+		for k := 0; k < 200; k++ {
+			runtime.Gosched()
+		}
+		kit.Settle()
+		close(stop)
+		wg.Wait()
+		dst.B.Hold(nil)
+		for _, h := range dst.Held() {
+			h.Release()
+		}
+		kit.Settle()
+		w.cancel()
+		src.Close()
+		dst.Close()
+		kit.Settle()
+	})
+	if res.Panic != nil {
+		v.failf("panic: %v\n%s", res.Panic, res.Stack)
+	}
+	v.Info = kit.CaseInfo{Labels: []string{"proxy-overflow-storm"}, NonTrivial: true, Key: fmt.Sprintf("%+v", c), Sample: c}
+	return
+}
